@@ -62,6 +62,15 @@ func (a *AggregatePlan) listAggrFuncs(expr Expression) ([]*FunctionCallExpr, []s
 			retExprs = append(retExprs, e)
 			retNames = append(retNames, fname)
 		}
+	case *NotExpr:
+		return a.listAggrFuncs(e.Right)
+	case *ListExpr:
+		// (the items of an IN list, the bounds of a BETWEEN)
+		for _, item := range e.List {
+			fcexpr, names := a.listAggrFuncs(item)
+			retExprs = append(retExprs, fcexpr...)
+			retNames = append(retNames, names...)
+		}
 	}
 	return retExprs, retNames
 }
@@ -104,7 +113,7 @@ func (a *AggregatePlan) Init() error {
 			fexprs    []*FunctionCallExpr
 		)
 		switch e := f.(type) {
-		case *FunctionCallExpr, *BinaryOpExpr:
+		case *FunctionCallExpr, *BinaryOpExpr, *NotExpr:
 			isKey = false
 			fexprs, aggrFuncs, found, err = a.listAggrFunctions(e)
 			if err != nil {
